@@ -358,12 +358,8 @@ func Canon(x *XSeg, withDictCounts bool) string {
 			}
 		}
 	}
-	fs = fs[:0]
-	for f := range x.Stats {
-		fs = append(fs, f)
-	}
-	sort.Strings(fs)
-	for _, f := range fs {
+	// statistics of the segment's own fields only (independent of the probe list)
+	for _, f := range x.Fields {
 		fmt.Fprintf(&sb, "T %q %+v\n", f, x.Stats[f])
 	}
 	return sb.String()
